@@ -171,8 +171,10 @@ def run_shard(binp, scen_path, work, idx):
     if os.path.exists(digf):
         for line in open(digf):
             a = line.split()
-            if len(a) == 2:
+            if len(a) >= 2:
                 res['digests'][a[0]] = a[1]
+            if len(a) >= 3:
+                res.setdefault('digests2', {})[a[0]] = a[2]
     if not os.path.exists(trace) or os.path.getsize(trace) == 0:
         return res
     # validate whatever was recorded (a crashed run leaves a prefix: truncate to the last complete scenario)
@@ -228,8 +230,10 @@ def run_scenarios(scen_lines, feat='default', tag='run', keep=False):
            'bin_sha': file_sha(binp), 'tlc_states': sum((r.get('tlc_states') or {}).get('distinct', 0) for r in results),
            'tlc_transitions': sum((r.get('tlc_states') or {}).get('generated', 0) for r in results)}
     agg['digests'] = {}
+    agg['digests2'] = {}
     for r in results:
         agg['digests'].update(r.get('digests', {}))
+        agg['digests2'].update(r.get('digests2', {}))
         for f in r['fails']:
             f['shard'] = r['shard']
             agg['fails'].append(f)
